@@ -515,12 +515,91 @@ def r2d(ctx: Ctx) -> list[Ob]:
             if k not in kw:
                 continue
             wrapped = any((dotted(c.func) or "").split(".")[-1] == "ConjugateParameter" for c in ld.calls(kw[k]))
+            skipped = _unwrapped_paths(ctx, r, call, kw[k]) if wrapped and not real else None
+            if skipped is not None:
+                out.append(skipped(k, cls.name, site))
+                continue
             if real:
                 out.append(ok("R2d", r.fn.qualname, f"param={k}", f"{cls.name} compiles to an exponential-family layer with real parameters: conjugation is the identity (derived exemption)", site, nontrivial=False))
             elif wrapped:
                 out.append(ok("R2d", r.fn.qualname, f"param={k}", "carried through ConjugateParameter", site))
             else:
                 out.append(viol("R2d", r.fn.qualname, f"param={k}", f"parameter '{k}' of {cls.name} is carried without ConjugateParameter: complex parameters are not conjugated", site))
+    return out
+
+
+def _unwrapped_paths(ctx: Ctx, r: Any, call: ast.Call, value: ast.AST) -> Any:
+    """R2d, every path: the definitions of the parameter that *reach* the layer constructor (reaching
+    definitions on the CFG) must all pass through ConjugateParameter.  A path that skips the wrapper
+    is accepted without verdict only when the skipping condition is a dtype test the rule cannot
+    evaluate; a test of the *kind* of a node (isinstance) says nothing about complex values."""
+    from ..canon import FlowCanon
+    from ..cfg import build_cfg
+
+    g = ctx.memo("cfg:" + r.fn.qualname, lambda: build_cfg(r.fn.node))
+    fc = ctx.memo("flowcanon:" + r.fn.qualname, lambda: FlowCanon(g))
+    node = None
+    for n, st in g.stmts.items():
+        if any(x is call for x in ast.walk(st)) and not isinstance(st, (ast.If, ast.For, ast.While, ast.With, ast.Try)):
+            node = n
+    if node is None:
+        return None
+    c = fc.expr(value, node)
+    alts = list(c.args) if isinstance(c, ast.Call) and isinstance(c.func, ast.Name) and c.func.id == "PHI" else [c]
+    bare = [a for a in alts if "ConjugateParameter(" not in unparse(a)]
+    if not bare:
+        return None
+    tests = [unparse(x.test) for x in walk_no_nested(r.fn.node) if isinstance(x, (ast.If, ast.IfExp))]
+    dtype_test = any("dtype" in t or "complex" in t.lower() for t in tests)
+
+    def make(k: str, cname: str, site: str) -> Ob:
+        if dtype_test:
+            return unres("R2d", r.fn.qualname, f"param={k}", f"'{k}' skips ConjugateParameter on a path guarded by a dtype test ({tests}): not evaluated", site)
+        return viol(
+            "R2d",
+            r.fn.qualname,
+            f"param={k}",
+            f"on some path parameter '{k}' of {cname} reaches the constructor as `{unparse(bare[0])[:70]}`, without ConjugateParameter (condition(s): {tests}): "
+            "a test of the kind of a parameter node says nothing about its values being real, so complex parameters stay un-conjugated there",
+            site,
+        )
+
+    return make
+
+
+def r2h(ctx: Ctx, modules: tuple[str, ...] = ("cirkit.symbolic.operators", "cirkit.symbolic.functional")) -> list[Ob]:
+    """R2h -- facts about a parameter are read through references.  The leaves of the parameter graphs
+    of every operator result are ReferenceParameter nodes (R2a), so a function of the operator layer
+    that filters the nodes of a parameter graph with ``isinstance(n, TensorParameter)`` -- to infer a
+    dtype, learnability, a shape -- and neither mentions ReferenceParameter nor calls ``deref()`` sees
+    *no* leaf of a derived circuit: what it decides is right for base circuits and vacuous for every
+    chain of operators."""
+    out: list[Ob] = []
+    for f in ctx.repo.iter_functions():
+        if f.module.name not in modules:
+            continue
+        txt = unparse(f.node)
+        tests = [
+            n
+            for n in walk_no_nested(f.node)
+            if isinstance(n, ast.Call) and isinstance(n.func, ast.Name) and n.func.id == "isinstance" and len(n.args) == 2 and "TensorParameter" in unparse(n.args[1])
+        ]
+        if not tests:
+            out.append(ok("R2h", f.qualname, "leaf-inspection", "no leaf of a parameter graph is singled out by its node kind", f.loc, nontrivial=False))
+            continue
+        if "ReferenceParameter" in txt or ".deref(" in txt:
+            out.append(ok("R2h", f.qualname, "leaf-inspection", "tensor leaves and references are both handled", f.loc))
+        else:
+            out.append(
+                viol(
+                    "R2h",
+                    f.qualname,
+                    "leaf-inspection",
+                    f"`{unparse(tests[0])}` singles out TensorParameter leaves and the function never looks through ReferenceParameter: in every circuit "
+                    "produced by an operator the leaves are references, so whatever this decides (dtype, learnability) is vacuous for operator chains",
+                    f"{f.module.relpath}:{tests[0].lineno}",
+                )
+            )
     return out
 
 
